@@ -104,7 +104,7 @@ pub fn plan(property: &str) -> Option<Plan> {
             "exploration",
         ),
         "C08" => (vec![stage("conc", "C08", 40_000, 1_000_000)], "exploration"),
-        "C11" => (vec![stage("seq", "C11", 24_000, 300_000), stage("conc", "C11", 30_000, 600_000), stage("crash", "C11", 2_500, 30_000)], "exploration"),
+        "C11" => (vec![stage("seq", "C11", 24_000, 300_000), stage("conc", "C11", 30_000, 600_000), stage("crash", "C11", 2_500, 30_000), stage("bigrec", "C11", 16, 200)], "exploration"),
         "C12" => (vec![stage("seq", "C12", 24_000, 300_000), stage("crash", "C12", 1_500, 20_000), stage("conc", "C11", 15_000, 300_000)], "exploration"),
         "C13" => (vec![stage("seq", "C13", 24_000, 300_000), stage("conc", "C13", 40_000, 800_000), stage("crash", "C13", 2_000, 20_000)], "exploration"),
         "C14" => (vec![stage("seq", "C14", 24_000, 300_000), stage("conc", "C14", 40_000, 800_000)], "exploration"),
@@ -127,7 +127,7 @@ pub fn plan(property: &str) -> Option<Plan> {
         ),
         "C02" => (vec![stage("crash", "C02", 6_000, 60_000)], "fault_enumeration"),
         "C03" => (vec![stage("crash", "C03", 6_000, 60_000)], "fault_enumeration"),
-        "C04" => (vec![stage("crash", "C04", 2_000, 30_000)], "fault_enumeration"),
+        "C04" => (vec![stage("crash", "C04", 2_000, 30_000), stage("bigrec", "C04", 16, 200)], "fault_enumeration"),
         _ => return None,
     };
     Some(Plan {
